@@ -164,3 +164,81 @@ reg(
     "shape rules on the constraint kernel shared with C03",
     "DESIGN.md §2 C03+C27",
 )
+
+reg(
+    "C12",
+    "Decides the sibling homomorphism: every likelihood-space operation of Likelihoods has a LogLikelihoods override that is its image under tau (product->sum, quotient->difference, power->scaling, np.sum->logsumexp, pmf->logpmf, reduceat over an index->segment-wise logsumexp over the same index, constants 1/0 -> 0/-inf), compared on normalised ASTs; an arithmetic method without override is reported; BeliefPropagation combines likelihood-space values only through self.lik.*; space conversions apply one function to both data arrays and record the new space; moments are taken only after conversion to linear space. Accuracy of the streaming logsumexp is not decided.",
+    "Trusted: tau table; list of index-geometry methods excluded from the sibling requirement.",
+    "sibling agreement by AST normalisation under a homomorphism + layering (taint) rule + typestate",
+    "DESIGN.md §2 C12",
+)
+reg(
+    "C10",
+    "Decides one necessary clause of exactness: the message the outside pass divides out (recomputed branch, after inlining and aliasing child = group key) is the same expression tree the inside pass multiplied in for a non-fixed child, cached and recomputed forms normalise by the same node's denominator, the posterior is inside x outside, and each pass divides by the denominator it recorded. Everything numerical (triangular packing, the marginal likelihood value) is not decided.",
+    "Trusted: aliases self.inside = inside, self.denominator = denominator inside one call.",
+    "clone consistency: expression-tree equality after def-use inlining and alias normalisation",
+    "DESIGN.md §2 C10",
+)
+reg(
+    "C32",
+    "Decides the set_metadata policy exhaustively on abstract paths: set_metadata folded to False/None/True, every other condition a free atom, try-body faults modelled; the effect trace (write, drop, schema install, warning) of every path is compared with the documented policy; the row builder writes both keys in every row through the table's schema starting from the row's decoded metadata. What a given schema can encode is tskit's.",
+    "Trusted: path enumeration treats the faulting statement as having no table effect.",
+    "finite abstract interpretation: path enumeration with constant folding + effect-trace/decision-table comparison",
+    "DESIGN.md §2 C32",
+)
+reg(
+    "C33",
+    "Decides: on every returning abstract path of get_modified_ts, preprocess_ts and split_disjoint_nodes the number of provenance-recording effects (record_provenance, tskit operations that record by default unless given the literal record_provenance=False, tsdate callees likewise) is exactly 1 with recording on and 0 with it off; the flag reaches the guard unchanged; nothing truncates the provenance table; command name = method name = registry key; run() captures all parameters via locals() before binding other locals. JSON schema validity is tskit's.",
+    "Trusted: list of tskit operations that record provenance by default (sa/e4.py).",
+    "effect counting over enumerated paths with the recording flag folded; who-may-write; def-use",
+    "DESIGN.md §2 C33",
+)
+reg(
+    "C28",
+    "Decides the wiring clause: every option of preprocess_ts is consumed; the two sibling simplify calls agree, keep all samples and take their filter flags from the parameters of the same name; delete_intervals(simplify=False); splitting iff split_disjoint; user intervals are not overwritten; derived intervals come from adjacent site positions with >= minimum_gap and flanks only under erase_flanks; every path sorts and returns the same tables. Which regions are deleted and genotype preservation are tskit semantics and not decided.",
+    "Trusted: recognised statement shapes of the interval derivation.",
+    "sibling call agreement, parameter consumption, guard and def-use rules, path enumeration",
+    "DESIGN.md §2 C28",
+)
+reg(
+    "C30",
+    "Decides the wiring clause: allow_unary reaches both detectors unchanged from the API (keyword, **kwargs, self.allow_unary, positional MixturePrior argument), each detector runs only under `not allow_unary`, before inference, and its positive result raises ValueError; the variational detector masks samples, the prior's does not. Exactness of either detector is not decided.",
+    "Trusted: positional signature of MixturePrior.__init__.",
+    "parameter provenance (def-use across call hops) + guard rules",
+    "DESIGN.md §2 C30",
+)
+reg(
+    "C31",
+    "Decides the exhaustiveness clause: accepted node_selection values equal the handled ones and each binds the documented summary; child age above a root; per-site maximum, min_time floor per site, NaN default; unconstrained uses the mn metadata for non-samples only; add_sampledata_times is an element-wise maximum. The arithmetic of the summaries' values is not decided.",
+    "Trusted: recognised dispatch-chain shape.",
+    "exhaustiveness of a string dispatch + def-use/guard rules",
+    "DESIGN.md §2 C31",
+)
+reg(
+    "C13",
+    "Decides the domain-bound clause by a running-minimum abstract domain: the slice bound Y is initialised from the first parent's assigned index and only ever lowered to another parent's index, every per-parent likelihood, the running product and the inside row entering the final argmax are sliced [:Y+1], parents are assigned before children, reported times are grid points indexed by the assignment, never-a-child nodes take the argmax of their inside row. The objective being maximised is not decided.",
+    "Trusted: recognised update forms (guarded assignment under cur < Y, min()).",
+    "abstract interpretation with a running-minimum domain over the assignments to the bound + slice-bound rule",
+    "DESIGN.md §2 C13",
+)
+reg(
+    "C11",
+    "Decides the order-only and opacity clauses: on the discrete-time path every read of the input node-time column is a sample time, a sort key (argsort/lexsort argument or a field of a structured array passed only to argsort) or a dtype query; node ids are only compared for equality/membership, never ordered or combined arithmetically or compared with counts (constructs under ignore_oldest_root belong to C38). That different valid traversal orders give the same floating-point result is not decided.",
+    "Trusted: E4 typing of rows/trees; call-graph scoping of the discrete path.",
+    "taint classification of every read of the input time column by its syntactic consumption context; opacity rule on id comparisons",
+    "DESIGN.md §2 C11",
+)
+reg(
+    "C16",
+    "Decides structural clauses only: a user grid reaches fill_priors sorted, validated (>= 2 points, non-negative, no duplicates) and converted, an integer through create_timepoints (sorted, 0 prepended); rows exist exactly for non-samples; each row is [0] + diff(CDF on the coalescent-scale grid, normalised); standardize runs last on every path; the stored grid is the natural-scale image of the very array the CDFs used. The probability masses and parametrisation are numerical and not decided.",
+    "Trusted: recognised statement shapes in fill_priors / create_timepoints.",
+    "must-pass-through and def-use rules, path enumeration",
+    "DESIGN.md §2 C16",
+)
+reg(
+    "C04",
+    "Decides single source and typestate: metadata means/variances and node_posteriors()/mutation_posteriors() are pure copies of node_moments()/mutation_moments() routed by field position through Results and get_modified_ts/set_time_metadata; no state-changing method of the fit (computed by an effect analysis that includes kernels with writable parameters) runs after extraction; the inside_outside grid goes standardize < to linear space < to_probabilities < mean_var; maximization passes None variances and set_time_metadata then returns before any effect. That mean_var's formula is the mean/variance is arithmetic and not decided.",
+    "Trusted: Results field order read from the namedtuple definition; E2 signatures for the effect analysis.",
+    "def-use origin tracking through a positional record + effect/typestate analysis over enumerated paths",
+    "DESIGN.md §2 C04",
+)
